@@ -48,6 +48,8 @@ def rand_criteria(rng):
     for a in rng.sample(list(ATTRS), rng.randint(1, 2)):
         pool = ATTRS[a] + (["missing-value"] if rng.random() < 0.2 else [])
         vals = rng.sample(pool, rng.randint(1, len(pool) - 1))
+        if rng.random() < 0.12:  # no allowed value at all: nothing can satisfy this criterion (an empty collection is not 'unset')
+            vals = []
         # "the value is among the allowed ones": the allowed values as any collection supporting `in`
         form = rng.random()
         hashable = all(not isinstance(v, (list, dict)) for v in ATTRS[a] + vals)  # `x in a_set` needs x hashable: sets only where every value is
